@@ -1,6 +1,6 @@
 (* C03 property theorems. This file contains only statements closed by
    [exact lemma] and Print Assumptions. *)
-From V Require Import Common.Base C03.Num C03.SpecOps C03.NumProofs C03.Tree C03.Fold C03.MiniJS C03.Worlds C03.TreeProofs C03.TreeProofs2 C03.TreeProofs3 C03.TreeProofs4 C03.TreeProofs5 C03.Refuted.
+From V Require Import Common.Base C03.Num C03.SpecOps C03.NumProofs C03.Tree C03.Fold C03.MiniJS C03.Worlds C03.TreeProofs C03.TreeProofs2 C03.TreeProofs3 C03.TreeProofs4 C03.TreeProofs5 C03.TreeProofs6 C03.Refuted.
 
 (* js_ast.ToInt32 computes ECMA-262 ToInt32 for every float64 (finite dyadic of
    any magnitude, NaN, infinities), whatever Go's implementation-defined
@@ -114,6 +114,23 @@ Theorem not_is_negation :
     forall e tr res, eval W tr (EUn UNot e false) = Some res -> eval W tr (not_ e) = Some res.
 Proof. exact not_correct. Qed.
 Print Assumptions not_is_negation.
+
+(* SimplifyBooleanExpr: in every world_ok world, whenever e evaluates, the
+   simplified expression evaluates with the same trace, the same kind of
+   completion (same thrown value) and a value of the same truthiness; and the
+   parser's annotations stay true of the result *)
+Theorem simplify_boolean_sound :
+  forall (W : world), world_ok W ->
+    forall e tr res, flags_ok W e -> eval W tr e = Some res ->
+    same_truthiness (Some res) (eval W tr (simplify_boolean (w_unbound W) e)).
+Proof. exact simplify_boolean_sound_all. Qed.
+Print Assumptions simplify_boolean_sound.
+
+Theorem simplify_boolean_keeps_flags :
+  forall (W : world), world_ok W ->
+    forall e, flags_ok W e -> flags_ok W (simplify_boolean (w_unbound W) e).
+Proof. exact simplify_boolean_flags. Qed.
+Print Assumptions simplify_boolean_keeps_flags.
 
 (* CheckEqualityIfNoSideEffects on two literals (also inlined enum constants)
    answers what IsStrictlyEqual / IsLooselyEqual compute on their values: -0 == 0,
